@@ -207,8 +207,10 @@ def marshal_cases(ctx):
             % (zl(z), zl(M.encode_zig_zag(z)), zl(z), zl(M.decode_zig_zag(z)), zl(z), zl(M.bit_length(z))),
             {'fn': 'zig_zag/bit_length', 'z': z})
         if -2**63 <= z < 2**63:
+            enc = M.encode_zig_zag(z)
             add('zigzag-spec', '(zigzag_encode %s =? %s) && (zigzag_decode %s =? %s)'
-                % (zl(z), zl(M.encode_zig_zag(z)), zl(M.encode_zig_zag(z)), zl(z)), {'fn': 'zigzag spec', 'z': z})
+                % (zl(z), zl(enc), zl(enc), zl(M.decode_zig_zag(enc))),
+                {'fn': 'zigzag spec vs implementation', 'z': z, 'impl': [enc, M.decode_zig_zag(enc)]})
         up, exc = attempt(M.uvint_pack, z)
         ub = None if exc else list(up)
         add('uvint', '(res_l (uvint_pack %s) %s) && (opt_l (uvint_encode %s) %s)' % (zl(z), ob(ub), zl(z), ob(ub)),
@@ -271,6 +273,9 @@ def segment_cases(ctx):
         got = S.compute_crc24(d, ln)
         add('crc24', '(compute_crc24 %s %s =? %s) && (crc24_ref (le_bytes (Z.to_nat %s) %s) =? %s)' % (zl(d), zl(ln), zl(got), zl(ln), zl(d), zl(got)),
             {'fn': 'compute_crc24', 'data': d, 'length': ln, 'impl': got})
+    # the constants of the native-protocol v5 specification (section 2.2; Cassandra's Crc.java), independent of the source
+    add('crc24-consts', '(CRC24_INIT =? 8867936) && (CRC24_POLY =? 26693387) && (CRC24_LENGTH =? 3) && (MAX_PAYLOAD_LENGTH =? 131071)',
+        {'fn': 'CRC24_INIT/CRC24_POLY', 'impl': [S.CRC24_INIT, S.CRC24_POLY], 'spec': [0x875060, 0x1974F0B]})
     ident = lambda b: b
     for comp in (False, True):
         codec = S.SegmentCodec(ident, ident) if comp else S.SegmentCodec()
@@ -295,6 +300,17 @@ def segment_cases(ctx):
                             e += ' && (res_hdr (decode_header %s %d %s %s) %s)' % (cb(comp), hl, zl(hd), zl(crc ^ flip), exp)
                             if not exc2:
                                 e += ' && (segment_length %s %s =? %d)' % (zl(h.payload_length), zl(h.uncompressed_payload_length), h.segment_length)
+                                # implementation-side oracle: a header written by encode_header reads back unchanged
+                                want = (pl, ul if comp else -1, sc)
+                                have = (h.payload_length, h.uncompressed_payload_length, h.is_self_contained)
+                                if flip == 0 and ul <= S.Segment.MAX_PAYLOAD_LENGTH and have != want:
+                                    ctx.disagreement('t-marshal.segment.header-roundtrip-oracle',
+                                                     'decode_header(encode_header%r) = %r with compression=%s' % (want, have, comp),
+                                                     case={'compression': comp, 'header': list(want)}, actual=list(have))
+                            elif flip == 0:
+                                ctx.disagreement('t-marshal.segment.header-roundtrip-oracle',
+                                                 'decode_header rejects the header written by encode_header(%d, %d, %s): %s' % (pl, ul, sc, exc2),
+                                                 case={'compression': comp, 'header': [pl, ul, sc]}, actual=exc2)
                     add('header', e, {'fn': 'encode_header/decode_header', 'compression': comp, 'payload_length': pl,
                                       'uncompressed_length': ul, 'self_contained': sc, 'impl': out, 'exc': exc})
     return cases, meta
@@ -320,6 +336,11 @@ def time_cases(ctx):
         t.nanosecond_time = nt
         add('time-fields', '(time_hour %s =? %s) && (time_minute %s =? %s) && (time_second %s =? %s) && (time_nanosecond %s =? %s)'
             % (zl(nt), zl(t.hour), zl(nt), zl(t.minute), zl(nt), zl(t.second), zl(nt), zl(t.nanosecond)), {'fn': 'Time fields', 'nt': nt})
+        # implementation-side oracle (independent arithmetic): the fields recompose and are in range
+        flds = (t.hour, t.minute, t.second, t.nanosecond)
+        if (flds[0] * 3600 + flds[1] * 60 + flds[2]) * 10**9 + flds[3] != nt or not (0 <= flds[1] < 60 and 0 <= flds[2] < 60 and 0 <= flds[3] < 10**9):
+            ctx.disagreement('t-marshal.time.fields-oracle', 'Time fields of %d ns are %r: they do not recompose / are out of range' % (nt, flds),
+                             case={'nanosecond_time': nt}, actual=list(flds))
         r, exc = attempt(U.Time, nt)
         add('time-init', '(res_uz (time_from_timestamp %s 0) %s)' % (zl(nt), oz(None if exc else r.nanosecond_time)),
             {'fn': 'Time._from_timestamp', 't': nt, 'exc': exc})
